@@ -515,11 +515,16 @@ impl MediaStreamTrack for SampleStreamTrack {
 
             {
                 let _pop_guard = self.pop_lock.lock();
+                // Read the closed flag *before* trying to pop: every push happens before the
+                // close, so "closed, then found nothing" proves the queue is drained. The
+                // other order loses the tail: pop finds nothing, the producer pushes its
+                // last sample and drops the source, and the flag then reads closed.
+                let closed = self.source_closed.load(Ordering::Acquire);
                 if let Some(sample) = self.queue.pop() {
                     return Ok(sample);
                 }
 
-                if self.source_closed.load(Ordering::Acquire) {
+                if closed {
                     self.ended.store(true, Ordering::SeqCst);
                     return Err(MediaError::EndOfStream);
                 }
